@@ -7,7 +7,7 @@ import itertools
 import re
 from typing import Any, Callable, Iterable, Iterator
 
-from ..astutil import (ERROR_CLASSES, Locals, call_name, calls_in, cfg_of, constructs_error, local_names, names_in, norm, receivers, region, resolved_text,
+from ..astutil import (ERROR_CLASSES, Locals, anon, call_name, calls_in, cfg_of, constructs_error, local_names, names_in, norm, receivers, region, resolved_text,
                        stmt_of, where)
 from ..cfg import CFG, ENTRY, EXIT, walk_own
 from ..core import Report
@@ -15,18 +15,24 @@ from ..core import Report
 LEVEL = ("structural clauses on the region of merge_properties / _process_properties / _process_models, decided on paths (small symbolic "
          "execution over isinstance atoms, statement CFG), never on statement shape (a helper that is handed the classes it tests, that "
          "builds a result from arguments it does not test, or that is a predicate over isinstance tests is executed as part of each "
-         "caller, with the classes of that call; a loop over a written-out sequence is unrolled): every merge function dispatches symmetrically in "
+         "caller, with the classes of that call; a function that is handed a constant - a class, a record of strategies with its lambdas - is "
+         "judged once for each constant, with record fields, constant tuples and lambda calls folded; a loop over a written-out sequence, "
+         "also one held in a module constant, is unrolled): every merge function dispatches symmetrically in "
          "its two arguments, the class that is discarded at a merge site is the wider one (Any > number/string > integer > enum), the "
          "smaller enum wins and both subset directions are tried, incompatible pairs end in an error, the enum subset decision looks at "
-         "values; requiredness is a disjunction, inline members' `required` lists are unioned on every path and reach every inserted "
+         "values (what is compared is evaluated abstractly for two arguments of the enum class); requiredness is a disjunction, inline members' `required` lists are unioned on every path and reach every inserted "
          "property; all members contribute (Reference and inline, required and optional properties of a parent); parent properties are "
-         "not mutated; every model of a round is processed, re-queued or reported, self-reference is diverted (separator-anchored test). "
+         "not mutated; every model of a round is processed, re-queued or reported, the error recorded for a re-queued model is dropped on "
+         "every path between two rounds and not before the report, self-reference is diverted (separator-anchored test). "
          "Every value that can reach `default=` of a merged copy is None, the copy's own default or the override's default converted "
          "by the merged property, and a conversion error is returned before the copy is made; get_imports / get_lazy_imports are called "
          "for each element of an unfiltered iteration over all collected properties on every path of the iteration; no validator of "
          "Schema moves allOf away from its sibling keywords on a path on which the schema has a type (frozen exception: no type). "
-         "The allOf loop, the building loop, the insertions and the promotion of inherited properties are found by what they do, in "
-         "_process_properties, a nested function or a helper that is handed its state; variables by role, never by name.")
+         "Every store into the mapping of collected properties is dominated by a comparison of python names with everything collected. "
+         "The allOf loops (one for both kinds of member or one for each, told apart by a decision or by a filter), the building loop, the "
+         "insertions and the promotion of inherited properties are found by what they do, in _process_properties, a nested function or a "
+         "helper that is handed its state or hands back its results; variables by role (alias classes over closures, arguments and "
+         "returned tuples), never by name.")
 
 # the order of the property statement: integer over number, formatted string over string, enum over its base type, anything over Any
 WIDTH = {"AnyProperty": 3, "FloatProperty": 2, "StringProperty": 2, "IntProperty": 1}
@@ -48,24 +54,97 @@ class _State:
         return _State(self.store, self.assume)
 
 
+class World:
+    """what a symbolic execution may know beyond the function it executes: the constants of the module (a tuple of strategy records, a
+    table) and the fields of record classes (NamedTuple / dataclass / attrs class without a constructor of its own).  Used to fold
+    `<record>(field=X).field` to X, `<tuple constant>[0]` to its element, `(lambda p: E)(a)` to E[a/p] and to unroll a loop over a
+    constant sequence: a decision that is parameterised by a constant is the decision for that constant."""
+
+    def __init__(self, ix: Any, module: Any) -> None:
+        self.ix, self.module = ix, module
+
+    def const(self, name: str, depth: int = 0) -> ast.expr | None:
+        r = self.ix.resolve(self.module, name)
+        if r and r[0] == "var":
+            mod, n = r[1]
+            v = mod.variables[n]
+            if isinstance(v, ast.Name) and depth < 3 and mod is self.module:
+                return self.const(v.id, depth + 1) or v
+            return v
+        return None
+
+    def record_fields(self, c: ast.Call) -> list[str] | None:
+        r = self.ix.resolve(self.module, call_name(c))
+        if r and r[0] == "class":
+            k = r[1]
+            if any(m in b.methods for b in self.ix.mro(k) for m in ("__init__", "__new__", "__attrs_post_init__", "__post_init__")):
+                return None
+            return list(self.ix.all_fields(k))
+        return None
+
+
+_STRUCTURED = (ast.Tuple, ast.List, ast.Dict, ast.Lambda, ast.Call)
+
+
 class _Subst(ast.NodeTransformer):
-    def __init__(self, store: dict[str, ast.expr | None]) -> None:
+    def __init__(self, store: dict[str, ast.expr | None], world: World | None = None) -> None:
         self.store = store
+        self.world = world
 
     def visit_Name(self, n: ast.Name) -> ast.AST:
         if isinstance(n.ctx, ast.Load) and self.store.get(n.id) is not None:
             return copy.deepcopy(self.store[n.id])
         return n
 
+    def _taken_apart(self, e: ast.expr) -> ast.expr:
+        """a module constant that is taken apart here (a field / an element of it is read, it is called): what it is defined as"""
+        if isinstance(e, ast.Name) and self.world is not None and e.id not in self.store:
+            v = self.world.const(e.id)
+            if isinstance(v, _STRUCTURED):
+                return _Subst({}, self.world).visit(copy.deepcopy(v))
+        return e
+
+    def visit_Attribute(self, n: ast.Attribute) -> ast.AST:
+        self.generic_visit(n)
+        v = self._taken_apart(n.value)
+        if isinstance(v, ast.Call) and self.world is not None and isinstance(n.ctx, ast.Load) and not any(isinstance(a, ast.Starred) for a in v.args) \
+                and all(kw.arg for kw in v.keywords):
+            fields = self.world.record_fields(v)
+            if fields is not None and n.attr in fields:
+                given = {**dict(zip(fields, v.args)), **{kw.arg: kw.value for kw in v.keywords}}
+                if n.attr in given:
+                    return given[n.attr]
+        return n
+
+    def visit_Subscript(self, n: ast.Subscript) -> ast.AST:
+        self.generic_visit(n)
+        v = self._taken_apart(n.value)
+        k = n.slice
+        if isinstance(n.ctx, ast.Load) and isinstance(k, ast.Constant):
+            if isinstance(v, (ast.Tuple, ast.List)) and isinstance(k.value, int) and not isinstance(k.value, bool) and \
+                    not any(isinstance(x, ast.Starred) for x in v.elts) and -len(v.elts) <= k.value < len(v.elts):
+                return v.elts[k.value]
+            if isinstance(v, ast.Dict) and all(isinstance(x, ast.Constant) for x in v.keys):
+                hit = [val for key, val in zip(v.keys, v.values) if key.value == k.value and type(key.value) is type(k.value)]  # type: ignore[union-attr]
+                if len(hit) == 1:
+                    return hit[0]
+        return n
+
     def visit_Call(self, n: ast.Call) -> ast.AST:
         self.generic_visit(n)
         if call_name(n).rsplit(".", 1)[-1] == "cast" and len(n.args) == 2:  # typing.cast is the identity at run time
             return n.args[1]
+        f = self._taken_apart(n.func)
+        if isinstance(f, ast.Lambda) and not n.keywords and not any(isinstance(a, ast.Starred) for a in n.args):
+            a = f.args
+            pos = [p.arg for p in [*a.posonlyargs, *a.args]]
+            if not (a.vararg or a.kwarg or a.kwonlyargs or a.defaults) and len(pos) == len(n.args):
+                return _Subst(dict(zip(pos, n.args))).visit(copy.deepcopy(f.body))  # the call of a lambda is its body, for these arguments
         return n
 
 
-def _resolve(e: ast.expr, st: _State) -> ast.expr:
-    return _Subst(st.store).visit(copy.deepcopy(e))
+def _resolve(e: ast.expr, st: _State, world: World | None = None) -> ast.expr:
+    return _Subst(st.store, world).visit(copy.deepcopy(e))
 
 
 _NEG = {ast.IsNot: ast.Is, ast.NotEq: ast.Eq, ast.NotIn: ast.In}
@@ -78,9 +157,11 @@ class Follow:
     `test`:  the same plus predicates (functions that return the truth value of isinstance tests on their arguments), where they are
              used as a test"""
 
-    def __init__(self, value: dict[str, ast.FunctionDef] | None = None, test: dict[str, ast.FunctionDef] | None = None) -> None:
+    def __init__(self, value: dict[str, ast.FunctionDef] | None = None, test: dict[str, ast.FunctionDef] | None = None,
+                 world: World | None = None) -> None:
         self.value = dict(value or {})
         self.test = {**(test or {}), **self.value}
+        self.world = world  # constants that are folded while resolving (see World)
 
 
 def _site(c: ast.Call) -> tuple[str, int, int]:
@@ -113,19 +194,25 @@ def _bind_args(fn: ast.FunctionDef, c: ast.Call) -> dict[str, ast.expr] | None:
 class SymExec:
     """terminals: (return statement or None for falling off the end, resolved return expression, state)"""
 
-    def __init__(self, fn: ast.FunctionDef, env: dict[str, bool] | None = None, follow: Follow | None = None) -> None:
+    def __init__(self, fn: ast.FunctionDef, env: dict[str, bool] | None = None, follow: Follow | None = None,
+                 preset: dict[str, ast.expr] | None = None) -> None:
         self.fn = fn
         self.env = env or {}
         self.follow = follow
+        self.world = follow.world if follow is not None else None
         self.followed: set[tuple[str, int, int]] = set()  # the calls that were stepped into
+        self.bindings: list[tuple[str, dict[str, ast.expr]]] = []  # ... each with what its parameters were bound to (in the caller's terms)
         self.atoms: dict[str, ast.expr] = {}
         self.terminals: list[tuple[ast.stmt | None, ast.expr | None, _State]] = []
         self._sinks = [self.terminals]  # where a return / raise is recorded: the function itself, or the call that is being followed
         self._frames = [getattr(fn, "name", "")]
         self._loops: list[tuple[list[_State], list[_State]]] = []  # per enclosing unrolled loop: the states at `continue` / at `break`
         self.budget = 4000
-        for st in self._seq(fn.body, [_State()]):
+        for st in self._seq(fn.body, [_State(dict(preset or {}))]):  # preset: parameters that are known constants in this execution
             self.terminals.append((None, None, st))
+
+    def _res(self, e: ast.expr, st: _State) -> ast.expr:
+        return _resolve(e, st, self.world)
 
     # -- calls that are followed into the callee -----------------------------------------------------------------------
     def _follow(self, call: ast.expr | None, st: _State, mode: str, pre: bool = False) -> list[tuple[ast.stmt | None, ast.expr, _State]] | None:
@@ -143,7 +230,8 @@ class SymExec:
         self.followed.add(_site(call))
         saved = st.store
         inner = st.fork()
-        inner.store = {p: (copy.deepcopy(v) if pre else _resolve(v, st)) for p, v in bound.items()}
+        inner.store = {p: (copy.deepcopy(v) if pre else self._res(v, st)) for p, v in bound.items()}
+        self.bindings.append((callee.name, dict(inner.store)))
         sink: list[tuple[ast.stmt | None, ast.expr | None, _State]] = []
         self._sinks.append(sink)
         self._frames.append(callee.name)
@@ -193,7 +281,7 @@ class SymExec:
                     s2.store[test.target.id] = e
                     out += self._truth(e, s2, True)
                 return out
-            st.store[test.target.id] = test.value if pre else _resolve(test.value, st)
+            st.store[test.target.id] = test.value if pre else self._res(test.value, st)
             return self._truth(test.value, st, pre)
         neg = False
         if isinstance(test, ast.Compare) and len(test.ops) == 1:
@@ -205,14 +293,14 @@ class SymExec:
                         out = []
                         for e, s2 in self._returned(followed):
                             s2.store[part.target.id] = e
-                            other = sides[1 - i] if pre else _resolve(sides[1 - i], s2)
+                            other = sides[1 - i] if pre else self._res(sides[1 - i], s2)
                             out += self._truth(ast.Compare(left=e if i == 0 else other, ops=test.ops, comparators=[other if i == 0 else e]), s2, True)
                         return out
-                    st.store[part.target.id] = part.value if pre else _resolve(part.value, st)
+                    st.store[part.target.id] = part.value if pre else self._res(part.value, st)
             if type(test.ops[0]) in _NEG:
                 neg = True
                 test = ast.Compare(left=test.left, ops=[_NEG[type(test.ops[0])]()], comparators=test.comparators)
-        r = copy.deepcopy(test) if pre else _resolve(test, st)
+        r = copy.deepcopy(test) if pre else self._res(test, st)
         for n in ast.walk(r):  # the walrus itself is not part of the atom
             if isinstance(n, ast.Compare):
                 n.left = n.left.value if isinstance(n.left, ast.NamedExpr) else n.left
@@ -255,7 +343,7 @@ class SymExec:
 
     def _bind(self, target: ast.expr, value: ast.expr | None, st: _State, pre: bool = False) -> None:
         def res(v: ast.expr) -> ast.expr:
-            return v if pre else _resolve(v, st)
+            return v if pre else self._res(v, st)
 
         if isinstance(target, ast.Name):
             st.store[target.id] = res(value) if value is not None else None
@@ -297,7 +385,7 @@ class SymExec:
             for e, s2 in self._returned(followed):
                 self._sinks[-1].append((s, e, s2))
         else:
-            self._sinks[-1].append((s, _resolve(value, st) if value is not None else None, st))
+            self._sinks[-1].append((s, self._res(value, st) if value is not None else None, st))
 
     def _stmt(self, s: ast.stmt, st: _State) -> list[_State]:
         self.budget -= 1
@@ -325,7 +413,9 @@ class SymExec:
                 st.store[n] = None
             return [st]
         if isinstance(s, ast.For):
-            seq = _resolve(s.iter, st)
+            seq = self._res(s.iter, st)
+            if self.world is not None:  # a module constant that is a written-out sequence (a tuple of strategies) is that sequence
+                seq = _Subst(st.store, self.world)._taken_apart(seq)
             if isinstance(seq, (ast.Tuple, ast.List)) and 0 < len(seq.elts) <= 4 and not any(isinstance(x, ast.Starred) for x in seq.elts):
                 cur, done = [st], []  # a loop over a sequence that is written out is its iterations one after the other
                 for elt in seq.elts:
@@ -375,16 +465,21 @@ def _isinstance_atom(ix: Any, module: Any, e: ast.AST, params: list[str]) -> tup
 class MergeFn:
     """one two-argument merge function, executed under every truth assignment of its isinstance(<argument>, T) tests"""
 
-    def __init__(self, ix: Any, f: Any, follow: Follow | None = None) -> None:
+    def __init__(self, ix: Any, f: Any, follow: Follow | None = None, preset: dict[str, ast.expr] | None = None) -> None:
         self.f = f
+        # preset: the function as it is called with these constants for its further parameters (a record of strategies, a class): a
+        # specialisation, judged like a function of its own
+        self.preset = dict(preset or {})
+        self.name = f.name + (f"[{','.join(_const_label(v) for _, v in sorted(self.preset.items()))}]" if self.preset else "")
         a = f.node.args
         self.params = [p.arg for p in [*a.posonlyargs, *a.args]][:2]
         self.atoms: dict[str, tuple[str, frozenset[str]]] = {}
         self.runs: list[tuple[dict[str, bool], SymExec]] = []
         self.followed: set[tuple[str, int, int]] = set()  # calls of Follow functions that were decided as part of this function
+        self.bindings: list[tuple[str, dict[str, ast.expr]]] = []  # ... with what the parameters of the callee were bound to
         seen: set[str] = set()
         for _ in range(3):  # atoms on a local appear once the local is resolved (enum_prop -> prop1 when prop1 is the enum)
-            probes = [SymExec(f.node, None, follow)] + [r for _, r in self.runs]
+            probes = [SymExec(f.node, None, follow, self.preset)] + [r for _, r in self.runs]
             for p in probes:
                 for key, e in p.atoms.items():
                     at = _isinstance_atom(ix, f.module, e, self.params)
@@ -397,11 +492,22 @@ class MergeFn:
             keys = sorted(self.atoms)
             for vals in itertools.product([False, True], repeat=len(keys)):
                 env = dict(zip(keys, vals))
-                self.runs.append((env, SymExec(f.node, env, follow)))
+                self.runs.append((env, SymExec(f.node, env, follow, self.preset)))
         if not self.runs:  # no isinstance test on the arguments: one run, nothing is known about them
-            self.runs = [({}, SymExec(f.node, {}, follow))]
+            self.runs = [({}, SymExec(f.node, {}, follow, self.preset))]
         for _, r in self.runs:
             self.followed |= r.followed
+            self.bindings += r.bindings
+
+    def is_call_of_me(self, c: ast.Call, caller_params: list[str]) -> bool:
+        """c (resolved: written in terms of the caller's arguments and constants) calls this function - this specialisation of it - with
+        the caller's two arguments in the same order"""
+        if call_name(c).rsplit(".", 1)[-1] != self.f.name:
+            return False
+        bound = _bind_args(self.f.node, c)
+        if bound is None:
+            return not self.preset and [norm(a) for a in c.args[:2]] == caller_params
+        return [norm(bound.get(p)) for p in self.params] == caller_params and all(norm(bound.get(p)) == norm(v) for p, v in self.preset.items())
 
     def restrict_to_calls_from(self, caller: "MergeFn") -> None:
         """keep the truth assignments under which `caller` can call this function with its own two arguments in the same order (the callee
@@ -420,7 +526,7 @@ class MergeFn:
             for s, e, st in r.terminals:
                 exprs = ([e] if e is not None else []) + [r.atoms[k] for k in st.assume if k in r.atoms]
                 for c in (c for x in exprs for c in calls_in(x)):
-                    if call_name(c) == self.f.name and [norm(a) for a in c.args[:2]] == caller.params:
+                    if self.is_call_of_me(c, caller.params):
                         seen_call = True
                         allowed.add(tuple(sorted((shared[k], v) for k, v in env.items() if k in shared)))
         if seen_call:
@@ -439,6 +545,15 @@ class MergeFn:
         if not yes:
             return None
         return frozenset.intersection(*yes) - (frozenset().union(*no) if no else frozenset())
+
+
+def _const_label(e: ast.expr) -> str:
+    """a short name for a constant a function is specialised for: the class it names"""
+    names = [n.id for n in ast.walk(e) if isinstance(n, ast.Name) and n.id[:1].isupper()] + \
+            [n.attr for n in ast.walk(e) if isinstance(n, ast.Attribute) and n.attr[:1].isupper()]
+    ctor = call_name(e).rsplit(".", 1)[-1] if isinstance(e, ast.Call) else ""
+    names = [n for n in names if n != ctor]
+    return names[0] if names else norm(e)[:30]
 
 
 def _descr(e: ast.expr | None, params: list[str]) -> str:
@@ -470,33 +585,51 @@ def _not_wider(cb: frozenset[str] | None, co: frozenset[str] | None) -> bool:
     return all(x == y or WIDTH.get(x, 0) < WIDTH.get(y, 0) for x in cb for y in co)
 
 
-def _subset_tests(ix: Any, mf: MergeFn) -> list[tuple[ast.AST, str, str]]:
-    """(test node, smaller, larger): `a.values <= b.values` or a call of a region helper with (a, b) that compares so itself"""
-    out = []
-    p = mf.params
-    for n in ast.walk(mf.f.node):
-        if isinstance(n, ast.Compare) and len(n.ops) == 1 and isinstance(n.ops[0], (ast.LtE, ast.Lt, ast.GtE, ast.Gt)):
-            l, r = names_in(n.left) & set(p), names_in(n.comparators[0]) & set(p)
-            if len(l) == 1 and len(r) == 1 and l != r:
-                small, large = (next(iter(l)), next(iter(r))) if isinstance(n.ops[0], (ast.LtE, ast.Lt)) else (next(iter(r)), next(iter(l)))
-                out.append((n, small, large))
-        elif isinstance(n, ast.Call) and len(n.args) == 2 and all(isinstance(a, ast.Name) and a.id in p for a in n.args) and \
-                n.args[0].id != n.args[1].id:  # type: ignore[attr-defined]
-            callee = [h for h in region(ix, mf.f, 1) if h.name == call_name(n) and h is not mf.f]
-            if callee and _subset_compares(callee[0].node):
-                hp = [x.arg for x in callee[0].params][:2]
-                for c in _subset_compares(callee[0].node):
-                    l, r = names_in(c.left) & set(hp), names_in(c.comparators[0]) & set(hp)
-                    if len(l) == 1 and len(r) == 1 and l != r:
-                        fwd = (next(iter(l)) == hp[0]) == isinstance(c.ops[0], (ast.LtE, ast.Lt))
-                        a0, a1 = n.args[0].id, n.args[1].id  # type: ignore[attr-defined]
-                        out.append((n, a0, a1) if fwd else (n, a1, a0))
-                        break
+_SUBSET_OPS = (ast.LtE, ast.Lt, ast.GtE, ast.Gt)
+
+
+def _subset_direction(ix: Any, mf: MergeFn, e: ast.AST, depth: int = 2) -> tuple[str, str, list[tuple[ast.expr, ast.expr]]] | None:
+    """(smaller, larger, [(what is compared for the smaller, for the larger)]) when e - written in terms of the two arguments - decides
+    whether what one argument has is contained in what the other has: `A(a) <= A(b)`, `A(a).issubset(A(b))`, or the call of a helper of
+    the region that is handed (a, b) and compares so itself (a helper that compares in more than one place - one for each kind of
+    argument - gives all of them; they must agree on the direction)"""
+    p = set(mf.params)
+
+    def one(x: ast.AST) -> str | None:
+        got = names_in(x) & p
+        return next(iter(got)) if len(got) == 1 else None
+
+    pair: tuple[ast.expr, ast.expr] | None = None
+    if isinstance(e, ast.Compare) and len(e.ops) == 1 and isinstance(e.ops[0], _SUBSET_OPS):
+        l, r = e.left, e.comparators[0]
+        pair = (l, r) if isinstance(e.ops[0], (ast.LtE, ast.Lt)) else (r, l)
+    elif isinstance(e, ast.Call) and isinstance(e.func, ast.Attribute) and e.func.attr in ("issubset", "issuperset") and len(e.args) == 1:
+        pair = (e.func.value, e.args[0]) if e.func.attr == "issubset" else (e.args[0], e.func.value)
+    if pair is not None:
+        small, large = one(pair[0]), one(pair[1])
+        return (small, large, [pair]) if small and large and small != large else None
+    if isinstance(e, ast.Call) and depth > 0 and sum(1 for a in e.args if one(a)) >= 2:
+        for h in region(ix, mf.f, 1):
+            if h.name == call_name(e).rsplit(".", 1)[-1] and h is not mf.f:
+                bound = _bind_args(h.node, e)
+                found = [d for c in ast.walk(h.node) if bound is not None and isinstance(c, (ast.Compare, ast.Call))
+                         for d in [_subset_direction(ix, mf, _Subst(bound).visit(copy.deepcopy(c)), 0)] if d is not None]  # type: ignore[arg-type]
+                if found and len({(d[0], d[1]) for d in found}) == 1:
+                    return found[0][0], found[0][1], [pr for d in found for pr in d[2]]
+    return None
+
+
+def _subset_tests(ix: Any, mf: MergeFn) -> dict[str, tuple[str, str, list[tuple[ast.expr, ast.expr]]]]:
+    """the tests of the function (as its paths see them: locals, constants and lambdas resolved) that decide containment between what the
+    two arguments have, by the key under which a path records their outcome"""
+    out: dict[str, tuple[str, str, list[tuple[ast.expr, ast.expr]]]] = {}
+    for _, r in mf.runs:
+        for key, e in r.atoms.items():
+            if key not in out:
+                d = _subset_direction(ix, mf, e)
+                if d is not None:
+                    out[key] = d
     return out
-
-
-def _subset_compares(fn: ast.AST) -> list[ast.Compare]:
-    return [n for n in ast.walk(fn) if isinstance(n, ast.Compare) and len(n.ops) == 1 and isinstance(n.ops[0], (ast.LtE, ast.Lt, ast.GtE, ast.Gt))]
 
 
 # ======================================================================================================================
@@ -524,6 +657,11 @@ def run(rep: Report, ctx: Any) -> str:
                       "next to it (properties, required) on a path on which the schema has a `type` - such a schema is made nullable through "
                       "its type - nor, for a schema without `type`, on any path at all")
 
+    rep.rule("R15.9", "no property of a member is displaced by another one: every store into the mapping that collects the properties of the "
+                      "composed model - of a new, an inherited or a merged property alike - comes, on every path, after the stored property has been "
+                      "compared by python name with the properties collected so far (two properties under one python name are one attribute of the "
+                      "generated class: one member's property is neither accepted nor emitted)")
+
     mp = ix.func("merge_properties.merge_properties")
     _merge_rules(rep, ctx, mp)
     _required_and_members(rep, ctx, cfgs)
@@ -531,6 +669,7 @@ def run(rep: Report, ctx: Any) -> str:
     _parents_first(rep, ctx, cfgs)
     _merged_default(rep, ctx, cfgs)
     _imports_of_every_property(rep, ctx, cfgs)
+    _python_names_compared(rep, ctx, cfgs)
     _composed_schema_stays_whole(rep, ctx, cfgs)
     return LEVEL
 
@@ -582,54 +721,37 @@ def _encloses(outer: Any, f: Any) -> bool:
     return False
 
 
-def _find_allof_loop(pp: Any, funcs: list[Any]) -> tuple[Any, ast.For, str] | None:
-    """(function, loop, member variable): the loop over the members of data.allOf - directly or over a local that holds them, in
-    _process_properties or in a function of its region that is handed the schema - whatever the member variable is called"""
+def _find_allof_loops(pp: Any, funcs: list[Any]) -> list[tuple[Any, ast.For, str]]:
+    """(function, loop, member variable): the loops over the members of data.allOf - directly or over a local that holds them, in
+    _process_properties or in a function of its region that is handed the schema - whatever the member variable is called.  One loop may
+    deal with both kinds of member, or each kind may have a loop of its own."""
+    out = []
     for f in [pp] + [g for g in funcs if g is not pp]:
         pat = r"\bdata\.allOf\b" if f is pp else r"\b\w+\.allOf\b"
         for n in ast.walk(f.node):
             if isinstance(n, ast.For) and re.search(pat, resolved_text(n.iter, f.node)):
-                return f, n, norm(n.target)
-    return None
+                out.append((f, n, norm(n.target)))
+    return out
 
 
-def _allof_loop(rep: Report, pp: Any, funcs: list[Any]) -> tuple[Any, ast.For, str]:
-    found = _find_allof_loop(pp, funcs)
-    rep.require(found is not None, "loop over data.allOf")
-    assert found is not None
-    return found
+def _find_allof_loop(pp: Any, funcs: list[Any]) -> tuple[Any, ast.For, str] | None:
+    found = _find_allof_loops(pp, funcs)
+    return found[0] if found else None
 
 
 def _find_member_decision(loop: ast.For, member: str) -> tuple[ast.If, bool] | None:
     """the statement of the allOf loop that decides between Reference and inline members, and whether its test holds for a Reference
     (`isinstance(m, Reference)` or `not isinstance(m, Reference)` with the branches exchanged are the same decision)"""
-
-    def tests_for(cls: str) -> Callable[[ast.AST], bool]:
-        return lambda e: isinstance(e, ast.Call) and call_name(e) == "isinstance" and len(e.args) == 2 and norm(e.args[0]) == member and \
-            {norm(t).rsplit(".", 1)[-1] for t in (e.args[1].elts if isinstance(e.args[1], ast.Tuple) else [e.args[1]])} == {cls}
-
+    is_ref, is_schema = _kind_tests(member)
     for s in ast.walk(loop):
         if isinstance(s, ast.If):
-            pol = _polarity(s.test, tests_for("Reference"))
+            pol = _polarity(s.test, is_ref)
             if pol is not None:
                 return s, pol
-            pol = _polarity(s.test, tests_for("Schema"))  # a member is a Reference or an inline Schema: the same decision, seen from the other side
+            pol = _polarity(s.test, is_schema)  # a member is a Reference or an inline Schema: the same decision, seen from the other side
             if pol is not None:
                 return s, not pol
     return None
-
-
-def _member_decision(rep: Report, loop: ast.For, member: str) -> tuple[ast.If, bool]:
-    found = _find_member_decision(loop, member)
-    rep.require(found is not None, "decision between Reference and inline members in the allOf loop")
-    assert found is not None
-    return found
-
-
-def allof_branch(rep: Report, pp: Any, funcs: list[Any] | None = None) -> tuple[ast.For, ast.If]:
-    """the loop over data.allOf and the statement deciding `isinstance(<member>, oai.Reference)` (the member variable may have any name)"""
-    _, loop, member = _allof_loop(rep, pp, funcs or [pp])
-    return loop, _member_decision(rep, loop, member)[0]
 
 
 # ======================================================================================================================
@@ -712,7 +834,7 @@ def _is_truth_value(e: ast.expr | None, predicates: Iterable[str] = ()) -> bool:
     return isinstance(e, ast.Compare)
 
 
-def _followed_helpers(reg: list[Any], dispatcher: Any) -> tuple[Follow, set[str]]:
+def _followed_helpers(reg: list[Any], dispatcher: Any, world: World | None = None) -> tuple[Follow, set[str]]:
     """(the functions of the region that are judged inside their callers, the predicates among them).
     - A function that tests an argument against a class it receives as a parameter has no verdict of its own: which class is kept and
       which is discarded is a fact of each call.  It is executed as part of every function that calls it, with that call's classes.
@@ -724,7 +846,7 @@ def _followed_helpers(reg: list[Any], dispatcher: Any) -> tuple[Follow, set[str]
     for untested in (False, True):  # who tests what must be settled (predicates followed) before a function counts as testing nothing
         for _ in range(3):  # a helper that only hands on to such a helper is one itself
             before = (set(value), set(preds))
-            follow = Follow(value, preds)
+            follow = Follow(value, preds, world)
             for f in reg:
                 if f.name in value or f is dispatcher or f.name == MERGE_BASE_FN:
                     continue
@@ -741,7 +863,7 @@ def _followed_helpers(reg: list[Any], dispatcher: Any) -> tuple[Follow, set[str]
                     preds[f.name] = f.node
             if (set(value), set(preds)) == before:
                 break
-    return Follow(value, preds), set(preds)
+    return Follow(value, preds, world), set(preds)
 
 
 def _decided_in_callers(reg: list[Any], name: str, followed: set[tuple[str, int, int]]) -> bool:
@@ -761,16 +883,46 @@ def _merge_rules(rep: Report, ctx: Any, mp: Any) -> None:
     ix = ctx.py
     it, _ = ctx.flow
     reg = _referenced_region(ix, mp)
-    follow, predicates = _followed_helpers(reg, mp)
-    fns = [MergeFn(ix, f, follow) for f in reg if len([*f.node.args.posonlyargs, *f.node.args.args]) >= 2 and f.node.args.vararg is None]
-    # a function without isinstance tests on its arguments decides nothing about classes; a predicate returns no merge result (its tests
-    # count where it is asked)
-    fns = [m for m in fns if (m.atoms or m.f.name in follow.value) and m.f.name not in predicates]
-    # a function that is handed the classes it tests (or builds a result from arguments it does not test) is judged in its callers, with
-    # what each call knows; on its own only when a mention of it was not executed as part of a function that is judged here - then the
-    # classes are unknown and the clauses say so
-    decided: set[tuple[str, int, int]] = set().union(*[m.followed for m in fns if m.f.name not in follow.test])
-    in_callers = {g for g in follow.value if _decided_in_callers(reg, g, decided)}
+    world = World(ix, mp.module)
+    follow, predicates = _followed_helpers(reg, mp, world)
+    two_args = [f for f in reg if len([*f.node.args.posonlyargs, *f.node.args.args]) >= 2 and f.node.args.vararg is None]
+
+    def judged(follow: Follow, special: dict[str, list[dict[str, ast.expr]]]) -> tuple[list[MergeFn], set[str]]:
+        fns = [MergeFn(ix, f, follow) for f in two_args if f.name not in special]
+        fns += [MergeFn(ix, f, follow, preset) for f in two_args for preset in special.get(f.name, [])]
+        # a function without isinstance tests on its arguments decides nothing about classes; a predicate returns no merge result (its tests
+        # count where it is asked)
+        fns = [m for m in fns if (m.atoms or m.f.name in follow.value) and m.f.name not in predicates]
+        # a function that is handed the classes it tests (or builds a result from arguments it does not test) is judged in its callers, with
+        # what each call knows; on its own only when a mention of it was not executed as part of a function that is judged here - then the
+        # classes are unknown and the clauses say so
+        decided: set[tuple[str, int, int]] = set().union(*[m.followed for m in fns if m.f.name not in follow.test])
+        in_callers = {g for g in follow.value if _decided_in_callers(reg, g, decided)}
+        return fns, in_callers
+
+    fns, in_callers = judged(follow, {})
+    # a function that is handed its classes as constants (the same two arguments as its caller, plus a class / a record of strategies written
+    # out in the module) is that many functions: one for each constant it is called with, each judged like a function of its own
+    special: dict[str, list[dict[str, ast.expr]]] = {}
+    for g in sorted(in_callers):
+        gf = next(f for f in two_args if f.name == g) if any(f.name == g for f in two_args) else None
+        calls = [(m, b) for m in fns if m.f.name not in follow.test for callee, b in m.bindings if callee == g]
+        if gf is None or not calls:
+            continue
+        gp = [p.arg for p in [*gf.node.args.posonlyargs, *gf.node.args.args]]
+        rest = [p.arg for p in [*gf.node.args.posonlyargs, *gf.node.args.args, *gf.node.args.kwonlyargs]][2:]
+
+        def closed(m: MergeFn, e: ast.expr | None) -> bool:
+            return e is not None and not (names_in(e) & (set(m.params) | local_names(m.f.node) | {p.arg for p in m.f.params}))
+
+        if rest and all([norm(b.get(p)) for p in gp[:2]] == m.params and all(closed(m, b.get(p)) for p in rest) for m, b in calls):
+            presets = {tuple((p, norm(b[p])) for p in rest): {p: b[p] for p in rest} for _, b in calls}
+            if len(presets) <= 4:
+                special[g] = list(presets.values())
+    if special:
+        follow = Follow({k: v for k, v in follow.value.items() if k not in special},
+                        {k: v for k, v in follow.test.items() if k not in special and k not in follow.value}, world)
+        fns, in_callers = judged(follow, special)
     fns = [m for m in fns if m.f.name not in in_callers]
     for g in sorted(set(follow.value) - in_callers):
         rep.require(any(m.f.name == g for m in fns), f"{g} is judged: as part of every function that calls it, or on its own as a function of two arguments")
@@ -781,7 +933,7 @@ def _merge_rules(rep: Report, ctx: Any, mp: Any) -> None:
             m.restrict_to_calls_from(mpf)
     n_pairs = 0
     for mf in fns:
-        name = mf.f.name
+        name = mf.name
         by_env = {tuple(sorted(env.items())): (env, r) for env, r in mf.runs}
         bases = {(_base_param(e.args[0], mf.params)) for _, _, _, e, _ in _merge_terminals(mf)} - {None}
         chooses = len(bases) == 2
@@ -868,12 +1020,13 @@ def _merge_rules(rep: Report, ctx: Any, mp: Any) -> None:
 
     # ---- the two enum merges: found as what merge_properties dispatches to when one argument is an enum of that kind ----
     for kind in ("EnumProperty", "LiteralEnumProperty"):
-        callee: set[str] = set()
+        sib: list[MergeFn] = []
         for env, r in mpf.runs:
             on = [k for k, v in env.items() if v]
             if len(on) == 1 and kind in mpf.atoms[on[0]][1]:
-                callee |= {x for x in _descrs(mpf, r) if not x.startswith("<") and x != "None"}
-        sib = [m for m in fns if m.f.name in callee and m.f is not mp]
+                for s_, e, _ in r.terminals:
+                    if s_ is not None and isinstance(e, ast.Call):
+                        sib += [m for m in fns if m is not mpf and m not in sib and m.is_call_of_me(e, mpf.params)]
         rep.require(len(sib) == 1, f"the function merge_properties delegates {kind} to")
         _enum_sibling(rep, ctx, sib[0], kind)
 
@@ -881,12 +1034,12 @@ def _merge_rules(rep: Report, ctx: Any, mp: Any) -> None:
 def _enum_sibling(rep: Report, ctx: Any, mf: MergeFn, kind: str) -> None:
     ix = ctx.py
     it, _ = ctx.flow
-    name = mf.f.name
+    name = mf.name
     kk = {p: next((k for k, (q, ts) in mf.atoms.items() if q == p and ts == {kind}), None) for p in mf.params}
     rep.require(all(kk.values()), f"{name} tests both arguments for {kind}")
     tests = _subset_tests(ix, mf)
     rep.require(tests, f"subset test between the two enums in {name}")
-    direction = {norm(n): (small, large) for n, small, large in tests}
+    direction = {key: (small, large) for key, (small, large, _) in tests.items()}
     a, b = mf.params
     rep.check({(a, b), (b, a)} <= set(direction.values()), "R15.1", f"{name}::both-directions", "only one subset direction is tried", where(mf.f, mf.f.node),
               lhs=sorted(direction), rhs="a <= b and b <= a")
@@ -901,14 +1054,16 @@ def _enum_sibling(rep: Report, ctx: Any, mf: MergeFn, kind: str) -> None:
             if s is None:
                 continue
             true_sub = [direction[k] for k, v in st.assume.items() if v and k in direction]
-            if both and isinstance(e, ast.Call):
-                # the smaller enum over the larger: whatever `values=` the result is built with belongs to the subset side
-                for c in calls_in(e):
-                    for kw in c.keywords:
-                        if kw.arg == "values" and isinstance(kw.value, ast.Attribute) and isinstance(kw.value.value, ast.Name) and kw.value.value.id in mf.params:
-                            n_narrow += 1
-                            if not any(small == kw.value.value.id for small, _ in true_sub):
-                                wrong.append(f"values={norm(kw.value)} when {[k for k, v in st.assume.items() if v and k in direction]}")
+            if both and isinstance(e, ast.Call) and _descr(e, mf.params) != "<error>":
+                # the smaller enum over the larger: the values the result is built with - what `values=` is given, or else the values of the
+                # argument it is a copy of - belong to the subset side
+                given = [kw.value for c in calls_in(e) for kw in c.keywords if kw.arg == "values"]
+                base = _base_param(e.args[0], mf.params) if call_name(e) == MERGE_BASE_FN and e.args else None
+                sources = [(norm(v), names_in(v) & set(mf.params)) for v in given] or ([(f"{base}.values (unchanged)", {base})] if base else [])
+                for text, src in sources:
+                    n_narrow += 1
+                    if not any({small} == src for small, _ in true_sub):
+                        wrong.append(f"values={text} when {[k for k, v in st.assume.items() if v and k in direction]}")
             if both and set(direction) <= set(st.assume) and not true_sub:
                 n_incompat += 1
                 if _descr(e, mf.params) != "<error>":
@@ -925,7 +1080,7 @@ def _enum_sibling(rep: Report, ctx: Any, mf: MergeFn, kind: str) -> None:
                 n_single += 1
                 if not ("<error>" in d and MERGE_BASE_FN in d):
                     unchecked.append(f"{sorted(k for k, v in env.items() if v)} -> {sorted(d)}")
-    rep.require(n_narrow, f"`values=` of the narrowed enum in {name}")
+    rep.require(n_narrow, f"a result of {name} for two enums")
     rep.require(n_incompat and n_single, f"paths of {name} for incompatible / single-enum arguments")
     rep.check(not wrong, "R15.1", f"{name}::smaller-enum-wins", "of two enums the result does not take the values of the one that is a subset of the "
               "other", where(mf.f, mf.f.node), lhs=sorted(set(wrong))[:3], rhs="values of the subset side")
@@ -934,23 +1089,32 @@ def _enum_sibling(rep: Report, ctx: Any, mf: MergeFn, kind: str) -> None:
     rep.check(not unchecked, "R15.1", f"{name}::base-type-checked", "an enum is merged with an int / string property without looking at the enum's value "
               "type", where(mf.f, mf.f.node), lhs=sorted(set(unchecked))[:3], rhs="merge or error, depending on value_type")
     # the subset decision depends on values (wire values), not only on generated member names
-    cmps = [(g, c) for g in region(ix, mf.f, 1) if g is mf.f or any(call_name(n) == g.name for n, _, _ in tests if isinstance(n, ast.Call))
-            for c in _subset_compares(g.node)]
-    rep.require(cmps, f"subset comparison reached from {name}")
-    verdict: dict[str, tuple[bool, Any, ast.AST]] = {}
-    for g, n in cmps:
-        ok = verdict.get(g.name, (True, g, n))[0]
-        for side in (n.left, n.comparators[0]):
-            av = it.node_av.get(id(side))
-            el = av.elem if av is not None else None
-            # elements must carry the member's value: (name, value) pairs or the values themselves, not the generated names alone
-            carries = el is not None and ((el.tup is not None and len(el.tup) == 2) or ".values()" in norm(side) or bool(set(el.labels) - {"WORD"}))
-            ok = ok and carries
-        verdict[g.name] = (ok, g, n) if ok or verdict.get(g.name, (True,))[0] else verdict[g.name]
-    for gname, (ok, g, n) in verdict.items():
-        rep.check(ok, "R15.1", f"{gname}::compares-values",
-                  "the narrowing decision between two enums looks at member names only: enums with different wire values that happen "
-                  "to share generated names are treated as compatible", where(g, n), lhs=norm(n)[:90], rhs="sets of (name, value) pairs / of values")
+    # (what is compared is evaluated abstractly, for two arguments of this enum class: wherever the comparison is written - here, in a
+    # helper, in a lambda of a strategy record)
+    env = {p: it.tr.class_av(ix.cls(kind)) for p in mf.params}
+    saved = (it.cur_mod, it.record_nodes)
+    it.cur_mod, it.record_nodes = mf.f.module, False
+    names_only = []
+    try:
+        for key, (_, _, pairs) in sorted(tests.items()):
+            n_evaluated = 0
+            for side in (x for pr in pairs for x in pr):
+                av = it.ev(side, dict(env))
+                el = av.elem if av is not None else None
+                if av is None or not av.types or (el is not None and not el.types and not el.labels and el.tup is None):
+                    continue  # nothing an argument of this class can have (the comparison written for the other kind of enum)
+                n_evaluated += 1
+                # elements must carry the member's value: (name, value) pairs or the values themselves, not the generated names alone
+                if not (el is not None and ((el.tup is not None and len(el.tup) == 2) or bool(set(el.labels) - {"WORD"}))):
+                    names_only.append(f"{norm(side)[:60]} in {key[:80]}")
+            if not n_evaluated:
+                names_only.append(f"nothing is known about what {key[:80]} compares")
+    finally:
+        it.cur_mod, it.record_nodes = saved
+    rep.check(not names_only, "R15.1", f"{name}::compares-values",
+              "the narrowing decision between two enums looks at member names only: enums with different wire values that happen "
+              "to share generated names are treated as compatible", where(mf.f, mf.f.node), lhs=sorted(set(names_only))[:4],
+              rhs="sets of (name, value) pairs / of values")
 
 
 # ======================================================================================================================
@@ -984,10 +1148,64 @@ def _arm_entries(cfg: CFG, node: ast.If, positive: bool) -> tuple[object, object
     return (true_entry, false_entry) if positive else (false_entry, true_entry)
 
 
-def allof_arms(rep: Report, loop: ast.For, member: str, cfg: CFG) -> tuple[object, object]:
-    """where control goes in the allOf loop for a Reference member / for an inline member"""
-    decision, pol = _member_decision(rep, loop, member)
-    return _arm_entries(cfg, decision, pol)
+def _kind_tests(member: str) -> tuple[Callable[[ast.AST], bool], Callable[[ast.AST], bool]]:
+    def tests_for(cls: str) -> Callable[[ast.AST], bool]:
+        return lambda e: isinstance(e, ast.Call) and call_name(e) == "isinstance" and len(e.args) == 2 and norm(e.args[0]) == member and \
+            {norm(t).rsplit(".", 1)[-1] for t in (e.args[1].elts if isinstance(e.args[1], ast.Tuple) else [e.args[1]])} == {cls}
+
+    return tests_for("Reference"), tests_for("Schema")
+
+
+class MemberLoop:
+    """one loop over the members of allOf: where control goes for a Reference member and for an inline member (the loop statement itself:
+    nowhere, the next member is taken), and which statements run for each kind.  The kinds are told apart by a decision in the body
+    (`isinstance(m, Reference)`, negated, with an early continue, from the Schema side - all the same decision), by a filter in what is
+    iterated (`for m in (x for x in data.allOf if not isinstance(x, Reference))`), or not at all (then every member takes the body)."""
+
+    def __init__(self, f: Any, loop: ast.For, member: str, cfgs: dict[str, CFG]) -> None:
+        self.f, self.loop, self.member = f, loop, member
+        self.cfg = cfg_of(f, cfgs)
+        decision = _find_member_decision(loop, member)
+        self.decision = decision[0] if decision else None
+        self.tells_apart = True
+        first: object = loop.body[0]
+        if decision is not None:
+            self.ref_entry, self.inline_entry = _arm_entries(self.cfg, decision[0], decision[1])
+        else:
+            kept = self._filter(f, loop)
+            self.tells_apart = kept is not None
+            self.ref_entry, self.inline_entry = (first, first) if kept is None else (first, loop) if kept else (loop, first)
+        self.in_loop = {id(x) for x in ast.walk(loop)}
+        self.ref_arm, self.inline_arm = self._arm(self.ref_entry), self._arm(self.inline_entry)
+
+    @staticmethod
+    def _filter(f: Any, loop: ast.For) -> bool | None:
+        """what is iterated keeps the Reference members only (True) / the inline members only (False) / is not filtered by kind (None)"""
+        lc = Locals(f.node)
+        exprs: list[ast.AST] = [loop.iter] + [v for n in names_in(loop.iter) for v in lc.values_of(n)]
+        for e in exprs:
+            for c in ast.walk(e):
+                if isinstance(c, ast.comprehension):
+                    is_ref, is_schema = _kind_tests(norm(c.target))
+                    for cond in c.ifs:
+                        pol = _polarity(cond, is_ref)
+                        if pol is None:
+                            pol = _polarity(cond, is_schema)
+                            pol = None if pol is None else not pol
+                        if pol is not None:
+                            return pol
+        return None
+
+    def _arm(self, entry: object) -> set[int]:
+        """statements executed for one member of that kind (until the loop takes the next member)"""
+        if entry is self.loop:
+            return set()
+        return {id(n) for n in self.cfg.reachable_from(entry, avoid=lambda n: n is self.loop) if id(n) in self.in_loop}
+
+    def on_every_path(self, entry: object, stmts: list[ast.stmt | None], adds_what: str = "") -> bool:
+        """every path from `entry` to the next member passes one of the statements; a path taken only when `adds_what` (what the
+        statement would add) is empty or absent need not: adding nothing is the same as not adding"""
+        return entry is not self.loop and bool(stmts) and not _bypasses(self.cfg, entry, self.loop, stmts, adds_what)
 
 
 def _own_nodes(fn: ast.AST) -> Iterator[ast.AST]:
@@ -1014,35 +1232,110 @@ def _stores_outward(g: Any) -> bool:
     return any(_is_store(n, mine) for n in _own_nodes(g.node))
 
 
+class Aliases:
+    """which variables of the functions of a region are one and the same object: a closure sees the variables of the function around it, a
+    parameter is what the call passes for it, the locals a call's result is bound to are what the callee returns (a tuple result position
+    by position).  Flow-insensitive, by name within one function - enough to say `the set this helper fills is the set that one reads`
+    wherever the code that fills it was moved to."""
+
+    def __init__(self, funcs: list[Any]) -> None:
+        self.funcs = list({f.qual: f for f in funcs}.values())
+        self.up: dict[tuple[str, str], tuple[str, str]] = {}
+        by_name: dict[str, list[Any]] = {}
+        for f in self.funcs:
+            by_name.setdefault(f.name, []).append(f)
+        scope = {f.qual: self._bound_in(f) for f in self.funcs}
+        for f in self.funcs:
+            own = list(_own_nodes(f.node))
+            # closures
+            enc = f.parent
+            free = {n.id for n in own if isinstance(n, ast.Name)} - scope[f.qual]
+            while enc is not None:
+                bound = scope.get(enc.qual)
+                if bound is None:
+                    bound = self._bound_in(enc)
+                for n in free & bound:
+                    self._union((f.qual, n), (enc.qual, n))
+                free -= bound
+                enc = enc.parent
+            for n in own:
+                # arguments
+                if isinstance(n, ast.Call):
+                    for h in by_name.get(call_name(n).rsplit(".", 1)[-1], []):
+                        bound_args = _bind_args(h.node, n)
+                        if bound_args is None:
+                            pos = [a.arg for a in [*h.node.args.posonlyargs, *h.node.args.args]]
+                            bound_args = {**{pos[i]: a for i, a in enumerate(n.args) if i < len(pos) and not isinstance(a, ast.Starred)},
+                                          **{kw.arg: kw.value for kw in n.keywords if kw.arg}}
+                        for p_, a in bound_args.items():
+                            if isinstance(a, ast.Name):
+                                self._union((f.qual, a.id), (h.qual, p_))
+                # results
+                if isinstance(n, (ast.Assign, ast.AnnAssign)) and isinstance(n.value, ast.Call):
+                    for h in by_name.get(call_name(n.value).rsplit(".", 1)[-1], []):
+                        for r in _own_nodes(h.node):
+                            if isinstance(r, ast.Return) and r.value is not None:
+                                for t in (n.targets if isinstance(n, ast.Assign) else [n.target]):
+                                    self._unify(f.qual, t, h.qual, r.value)
+
+    @staticmethod
+    def _bound_in(f: Any) -> set[str]:
+        a = f.node.args
+        params = {x.arg for x in [*a.posonlyargs, *a.args, *a.kwonlyargs]} | ({a.vararg.arg} if a.vararg else set()) | ({a.kwarg.arg} if a.kwarg else set())
+        own = list(_own_nodes(f.node))
+        outer = {x for n in own if isinstance(n, (ast.Nonlocal, ast.Global)) for x in n.names}
+        stored = {n.id for n in own if isinstance(n, ast.Name) and isinstance(n.ctx, ast.Store)}
+        return (stored - outer) | params
+
+    def _unify(self, fq: str, target: ast.AST, hq: str, value: ast.AST) -> None:
+        if isinstance(target, ast.Name) and isinstance(value, ast.Name):
+            self._union((fq, target.id), (hq, value.id))
+        elif isinstance(target, (ast.Tuple, ast.List)) and isinstance(value, (ast.Tuple, ast.List)) and len(target.elts) == len(value.elts):
+            for t, v in zip(target.elts, value.elts):
+                self._unify(fq, t, hq, v)
+
+    def _find(self, x: tuple[str, str]) -> tuple[str, str]:
+        while self.up.get(x, x) != x:
+            self.up[x] = self.up.get(self.up[x], self.up[x])
+            x = self.up[x]
+        return x
+
+    def _union(self, x: tuple[str, str], y: tuple[str, str]) -> None:
+        self.up.setdefault(x, x)
+        self.up.setdefault(y, y)
+        rx, ry = self._find(x), self._find(y)
+        if rx != ry:
+            self.up[rx] = ry
+
+    def same(self, f: Any, names: set[str], g: Any) -> set[str]:
+        """the variables of g that are the variables `names` of f"""
+        if f.qual == g.qual:
+            return set(names)
+        roots = {self._find((f.qual, n)) for n in names if (f.qual, n) in self.up}
+        return {n for (q, n) in self.up if q == g.qual and self._find((q, n)) in roots}
+
+
+_ALIASES: dict[str, tuple[Any, Aliases]] = {}
+
+
+def _aliases(pp: Any, funcs: list[Any] | None = None) -> Aliases:
+    """the alias classes of the region of pp (built once for each syntax tree)"""
+    got = _ALIASES.get(pp.qual)
+    if got is None or got[0] is not pp.node or (funcs is not None and {f.qual for f in funcs} - {f.qual for f in got[1].funcs}):
+        known = got[1].funcs if got is not None and got[0] is pp.node else []
+        _ALIASES[pp.qual] = (pp.node, Aliases([pp, *known, *(funcs or [])]))
+    return _ALIASES[pp.qual][1]
+
+
 def _seen_as(pp: Any, g: Any, names: set[str]) -> set[str]:
     """how a function of the region refers to the given variables of _process_properties: by the same name when it is nested in it (a
-    closure), by the parameter they are passed as otherwise"""
-    if g.qual == pp.qual:
-        return set(names)
-    out: set[str] = set()
-    if _encloses(pp, g):
-        out |= set(names) - local_names(g.node) - {p.arg for p in g.params}
-    pos = [a.arg for a in [*g.node.args.posonlyargs, *g.node.args.args]]
-    for c in calls_in(pp.node):
-        if call_name(c).rsplit(".", 1)[-1] == g.name:
-            out |= {pos[i] for i, a in enumerate(c.args) if i < len(pos) and isinstance(a, ast.Name) and a.id in names}
-            out |= {kw.arg for kw in c.keywords if kw.arg and isinstance(kw.value, ast.Name) and kw.value.id in names}
-    return out
+    closure), by the parameter they are passed as, by the local it returns them from"""
+    return _aliases(pp, [g]).same(pp, names, g)
 
 
 def _in_caller(pp: Any, g: Any, names: set[str]) -> set[str]:
     """the other direction of _seen_as: what _process_properties calls the variables that function g of its region knows by these names"""
-    if g.qual == pp.qual:
-        return set(names)
-    out: set[str] = set()
-    if _encloses(pp, g):
-        out |= set(names) - local_names(g.node) - {p.arg for p in g.params}
-    pos = [a.arg for a in [*g.node.args.posonlyargs, *g.node.args.args]]
-    for c in calls_in(pp.node):
-        if call_name(c).rsplit(".", 1)[-1] == g.name:
-            out |= {a.id for i, a in enumerate(c.args) if i < len(pos) and pos[i] in names and isinstance(a, ast.Name)}
-            out |= {kw.value.id for kw in c.keywords if kw.arg in names and isinstance(kw.value, ast.Name)}
-    return out
+    return _aliases(pp, [g]).same(g, names, pp)
 
 
 def _req_atoms(e: ast.AST, req_names: set[str]) -> list[ast.Compare]:
@@ -1239,73 +1532,84 @@ def _bypasses(cfg: CFG, src: object, dst: object, through: list[Any], adds_what:
     return False
 
 
+def _result_attr_sites(funcs: list[Any], attr: str) -> list[tuple[Any, ast.AST, str, ast.expr]]:
+    """(function, node, the property that is copied / written, the value) wherever attribute `attr` of a merge result is given its value:
+    `evolve(<p>, attr=V)` or `<p>.attr = V` (whether writing in place is allowed is not this rule's question)"""
+    out: list[tuple[Any, ast.AST, str, ast.expr]] = []
+    for g in funcs:
+        for n in _own_nodes(g.node):
+            if isinstance(n, ast.Call) and call_name(n).rsplit(".", 1)[-1] == "evolve" and n.args:
+                out += [(g, n, norm(n.args[0]), kw.value) for kw in n.keywords if kw.arg == attr]
+            elif isinstance(n, (ast.Assign, ast.AnnAssign)) and n.value is not None:
+                for t in (n.targets if isinstance(n, ast.Assign) else [n.target]):
+                    if isinstance(t, ast.Attribute) and t.attr == attr:
+                        out.append((g, n, norm(t.value), n.value))
+            elif isinstance(n, ast.AugAssign) and isinstance(n.target, ast.Attribute) and n.target.attr == attr and isinstance(n.op, (ast.BitOr, ast.Or)):
+                old = ast.Attribute(value=n.target.value, attr=attr, ctx=ast.Load())
+                out.append((g, n, norm(n.target.value), ast.BoolOp(op=ast.Or(), values=[old, n.value])))
+    return out
+
+
 def _required_and_members(rep: Report, ctx: Any, cfgs: dict[str, CFG]) -> None:
     ix = ctx.py
     mca = ix.func("merge_properties._merge_common_attributes")
-    # the copy with `required=` is made in _merge_common_attributes or in a helper it hands the accumulated property and one override to
-    ev_calls = [(g, n) for g in region(ix, mca) for n in ast.walk(g.node) if isinstance(n, ast.Call) and call_name(n).endswith("evolve")
-                and any(kw.arg == "required" for kw in n.keywords)]
-    rep.require(ev_calls, "required= in _merge_common_attributes")
+    # `required` of the merged property is given in _merge_common_attributes or in a helper it hands the accumulated property and one override to
+    sites = _result_attr_sites(region(ix, mca), "required")
+    rep.require(sites, "where `required` of the merged property is given (region of _merge_common_attributes)")
     each = {norm(lp.target) for lp in ast.walk(mca.node) if isinstance(lp, ast.For) and norm(lp.iter) == "extend_with"}  # one override at a time
-    for g, c in ev_calls:
+    for g, node, acc, value in sites:
         over = set(each) if g is mca else {p_ for call in calls_in(mca.node) if call_name(call) == g.name
                                            for p_, a in (_bind_args(g.node, call) or {}).items() if norm(a) in each}
-        kw = next(k for k in c.keywords if k.arg == "required")
-        acc = norm(c.args[0]) if c.args else ""
         want = {f"{acc}.required"} | {f"{o}.required" for o in over}
-        ok = _disjuncts(kw.value, Locals(g.node)) == want and len(want) == 2
+        ok = _disjuncts(value, Locals(g.node)) == want and len(want) == 2
         rep.check(ok, "R15.2", "_merge_common_attributes::required-disjunction", "merged requiredness is not `current.required or override.required`",
-                  where(g, kw.value), lhs=norm(kw.value), rhs=" or ".join(sorted(want)))
+                  where(g, node), lhs=norm(value), rhs=" or ".join(sorted(want)))
 
     pp = ix.func("model_property._process_properties")
     reg = region(ix, pp)
     nested = [h for h in ix.all_functions if h.parent is not None and _encloses(pp, h)]  # part of the region whatever they are called
     funcs = _unique(reg)
-    # the three places the rules look at are found by what they do, in _process_properties or in a function it hands its state to:
-    #   host    = the function with the loop over the allOf members
-    #   builder = the function with the loop that turns the collected (name, schema) pairs into properties (property_from_data)
-    host, loop, member = _allof_loop(rep, pp, funcs)
-    cfg = cfg_of(host, cfgs)
-    ref_entry, inline_entry = allof_arms(rep, loop, member, cfg)
-    in_loop = {id(x) for x in ast.walk(loop)}
-
-    def arm(entry: object) -> set[int]:
-        """statements executed for one member of that kind (until the loop takes the next member)"""
-        if entry is loop:
-            return set()
-        return {id(n) for n in cfg.reachable_from(entry, avoid=lambda n: n is loop) if id(n) in in_loop}
-
-    ref_arm, inline_arm = arm(ref_entry), arm(inline_entry)
-
-    def on_every_path(entry: object, stmts: list[ast.stmt | None], adds_what: str = "") -> bool:
-        """every path from `entry` to the next member passes one of the statements; a path taken only when `adds_what` (what the
-        statement would add) is empty or absent need not: adding nothing is the same as not adding"""
-        return entry is not loop and bool(stmts) and not _bypasses(cfg, entry, loop, stmts, adds_what)
-
+    _aliases(pp, reg + nested)
+    # the places the rules look at are found by what they do, in _process_properties or in a function it hands its state to (or that hands
+    # its results back):
+    #   member loops = the loops over the allOf members (one for both kinds of member, or one for each)
+    #   builder      = the function with the loop that turns the collected (name, schema) pairs into properties (property_from_data)
+    loops = [MemberLoop(f, loop, member, cfgs) for f, loop, member in _find_allof_loops(pp, funcs)]
+    rep.require(loops, "loop over data.allOf")
+    rep.require(any(m.tells_apart for m in loops), "decision between Reference and inline members in a loop over allOf")
+    inline_loops = [m for m in loops if m.inline_arm] or loops
     # roles (locals are found by what they hold, never by their spelling; a variable of _process_properties that a helper receives as an
-    # argument is the same variable under the parameter's name):
+    # argument, sees as a closure or hands back as its result is the same variable under another name):
     #   required set  = what <member>.required is added to / the set built from data.required
     #   pending props = what the building loop iterates
-    upd_calls = _accumulations(host.node, f"{member}.required")
-    upd = [st for _, st in upd_calls]
-    req_sets = _in_caller(pp, host, {r for r, _ in upd_calls}) | set(Locals(pp.node).bound_from(lambda v: "data.required" in v, "assign"))
-    rep.check(on_every_path(inline_entry, upd, f"{member}.required"), "R15.2", "_process_properties::inline-required-unioned",
+    req_sets = set(Locals(pp.node).bound_from(lambda v: "data.required" in v, "assign"))
+    unioned, upd_seen = False, []
+    for m in loops:
+        upd_calls = _accumulations(m.f.node, f"{m.member}.required")
+        req_sets |= _in_caller(pp, m.f, {r for r, _ in upd_calls})
+        upd_seen += [norm(st)[:60] for _, st in upd_calls]
+        unioned = unioned or m.on_every_path(m.inline_entry, [st for _, st in upd_calls], f"{m.member}.required")
+    rep.check(unioned, "R15.2", "_process_properties::inline-required-unioned",
               "the `required` list of an inline allOf member is not added to required_set on every path (e.g. members without "
-              "`properties`)", where(host, loop), lhs=[norm(u)[:60] for u in upd], rhs="on every path through the inline branch")
+              "`properties`)", where(inline_loops[0].f, inline_loops[0].loop), lhs=upd_seen, rhs="on every path through the inline branch")
     build_loops = [(g, n) for g in funcs for n in ast.walk(g.node) if isinstance(n, ast.For) and
                    any(call_name(c).rsplit(".", 1)[-1] == "property_from_data" for c in calls_in(n))]
     rep.require(build_loops, "loop that builds the collected properties (property_from_data)")
     builder, build_loop = build_loops[0]
     pending = _in_caller(pp, builder, names_in(build_loop.iter))  # as _process_properties calls them
-    props_ext = [st for r, st in _accumulations(host.node, f"{member}.properties") if r in _seen_as(pp, host, pending)]
-    rep.check(on_every_path(inline_entry, props_ext, f"{member}.properties"), "R15.3", "_process_properties::inline-properties-collected",
-              "inline member properties are not collected on every path", where(host, loop), lhs=[norm(x)[:70] for x in props_ext],
-              rhs=f"{norm(build_loop.iter)}.extend({member}.properties...) on every inline path that has properties")
+    collected, ext_seen = False, []
+    for m in loops:
+        props_ext = [st for r, st in _accumulations(m.f.node, f"{m.member}.properties") if r in _seen_as(pp, m.f, pending)]
+        ext_seen += [norm(x)[:70] for x in props_ext]
+        collected = collected or m.on_every_path(m.inline_entry, props_ext, f"{m.member}.properties")
+    rep.check(collected, "R15.3", "_process_properties::inline-properties-collected",
+              "inline member properties are not collected on every path", where(inline_loops[0].f, inline_loops[0].loop), lhs=ext_seen,
+              rhs=f"{norm(build_loop.iter)}.extend(<member>.properties...) on every inline path that has properties")
     # the required set reaches every property of the composed model: either each insertion consults it, or the final partition
     # promotes every property named in it (on a copy) before splitting into required / optional
     storing = {g.name for g in funcs + nested if g is not pp and _stores_outward(g)}
     storing |= {g.name for g in funcs if g is not pp and any(call_name(c).rsplit(".", 1)[-1] in storing for c in calls_in(g.node))}
-    adds: list[tuple[Any, ast.AST]] = [(g, n) for g in _unique([pp, host, builder]) for n in _own_nodes(g.node) if
+    adds: list[tuple[Any, ast.AST]] = [(g, n) for g in _unique([pp, *[m.f for m in loops], builder]) for n in _own_nodes(g.node) if
                                        (isinstance(n, ast.Call) and call_name(n).rsplit(".", 1)[-1] in storing - {g.name}) or _is_store(n, set())]
     rep.require(adds, "the place where _process_properties (or a function it calls) stores a property of the composed model")
     rep.floor("property_insertions", len(adds), 1)
@@ -1318,7 +1622,7 @@ def _required_and_members(rep: Report, ctx: Any, cfgs: dict[str, CFG]) -> None:
     n_ref_adds = 0
     for g, a in adds:
         arg = norm(a.args[0]) if isinstance(a, ast.Call) and a.args else norm(a)[:60]
-        if id(stmt_of(g.node, a)) in ref_arm:
+        if any(id(stmt_of(g.node, a)) in m.ref_arm for m in loops):
             n_ref_adds += 1
             rep.check(promoted, "R15.2", "_process_properties::reference-member-bypasses-required_set",
                       "properties taken from a referenced allOf member are inserted with the parent's requiredness and nothing promotes "
@@ -1334,11 +1638,16 @@ def _required_and_members(rep: Report, ctx: Any, cfgs: dict[str, CFG]) -> None:
     rep.check(own, "R15.3", "_process_properties::own-properties", "the schema's own properties are not collected", where(pp, pp.node),
               lhs=source[:120], rhs="the properties that are built include data.properties")
     # a Reference member contributes: every path that handles one and goes on to the next member inserts the parent's properties
-    ins_stmts = [s for s in ast.walk(loop) if isinstance(s, ast.stmt) and id(s) in ref_arm and
-                 (any(x is a for _, a in adds for x in ast.walk(s)) if not isinstance(s, ast.If) else False)]
-    rep.check(n_ref_adds > 0 and on_every_path(ref_entry, ins_stmts) and bool(inline_arm), "R15.3", "_process_properties::reference-and-inline",
-              "allOf members of one kind are ignored", where(host, loop), lhs={"reference": [norm(s)[:50] for s in ins_stmts][:2], "inline": len(inline_arm)},
-              rhs="both kinds of member are handled")
+    inherited, ins_seen = False, []
+    for m in loops:
+        ins_stmts = [s for s in ast.walk(m.loop) if isinstance(s, ast.stmt) and id(s) in m.ref_arm and
+                     (any(x is a for _, a in adds for x in ast.walk(s)) if not isinstance(s, ast.If) else False)]
+        ins_seen += [norm(s)[:50] for s in ins_stmts]
+        inherited = inherited or m.on_every_path(m.ref_entry, ins_stmts)
+    ref_loops = [m for m in loops if m.ref_arm] or loops
+    rep.check(n_ref_adds > 0 and inherited and (unioned or collected), "R15.3", "_process_properties::reference-and-inline",
+              "allOf members of one kind are ignored", where(ref_loops[0].f, ref_loops[0].loop),
+              lhs={"reference": ins_seen[:2], "inline": {"required": unioned, "properties": collected}}, rhs="both kinds of member are handled")
     # ... with all of them: the required and the optional properties of the parent (reads outside the `is it processed yet` test)
     reads: set[str] = set()
     for g in reg:
@@ -1346,7 +1655,8 @@ def _required_and_members(rep: Report, ctx: Any, cfgs: dict[str, CFG]) -> None:
         reads |= {n.attr for n in ast.walk(g.node) if isinstance(n, ast.Attribute) and isinstance(n.ctx, ast.Load) and id(n) not in guarded
                   and n.attr in ("required_properties", "optional_properties")}
     rep.check(reads == {"required_properties", "optional_properties"}, "R15.3", "_process_properties::parent-required-and-optional",
-              "only part of a referenced parent's properties is inherited", where(host, loop), lhs=sorted(reads), rhs="required_properties and optional_properties")
+              "only part of a referenced parent's properties is inherited", where(ref_loops[0].f, ref_loops[0].loop), lhs=sorted(reads),
+              rhs="required_properties and optional_properties")
 
 
 # ======================================================================================================================
@@ -1395,16 +1705,14 @@ def _merged_default(rep: Report, ctx: Any, cfgs: dict[str, CFG]) -> None:
     ix = ctx.py
     mca = ix.func(f"merge_properties.{MERGE_BASE_FN}")
     reg = region(ix, mca)
-    sites = [(g, c, kw) for g in reg for c in calls_in(g.node) if call_name(c).rsplit(".", 1)[-1] == "evolve" and c.args
-             for kw in c.keywords if kw.arg == "default"]
-    rep.require(sites, f"evolve(<merged>, default=...) in the region of {MERGE_BASE_FN}")
-    for g, c, kw in sites:
+    sites = _result_attr_sites(reg, "default")
+    rep.require(sites, f"where `default` of the merged property is given (region of {MERGE_BASE_FN})")
+    for g, c, acc, value in sites:
         cfg = cfg_of(g, cfgs)
-        acc = norm(c.args[0])
         merged = {acc} | {norm(v) for v in Locals(g.node).values_of(acc) if isinstance(v, ast.Name)}  # `current = base`: the same property
-        ev_stmt = stmt_of(g.node, c)
+        ev_stmt = stmt_of(g.node, c) if not isinstance(c, ast.stmt) else c
         foreign, conversions = [], []
-        for leaf, st, via in _leaves(kw.value, g, reg):
+        for leaf, st, via in _leaves(value, g, reg):
             if (isinstance(leaf, ast.Constant) and leaf.value is None) or (isinstance(leaf, ast.Attribute) and leaf.attr == "default" and norm(leaf.value) in merged):
                 continue
             conv = isinstance(leaf, ast.Call) and isinstance(leaf.func, ast.Attribute) and leaf.func.attr == "convert_value" and \
@@ -1569,6 +1877,88 @@ def _imports_of_every_property(rep: Report, ctx: Any, cfgs: dict[str, CFG]) -> N
 
 
 # ======================================================================================================================
+# R15.9: a stored property has been compared by python name with the collected ones
+# ======================================================================================================================
+
+def _python_names_compared(rep: Report, ctx: Any, cfgs: dict[str, CFG]) -> None:
+    ix = ctx.py
+    pp = ix.func("model_property._process_properties")
+    nested = [h for h in ix.all_functions if h.parent is not None and _encloses(pp, h)]
+    funcs = list({f.qual: f for f in [*region(ix, pp), *nested]}.values())
+    _aliases(pp, funcs)
+    by_name: dict[str, Any] = {f.name: f for f in funcs}
+    # the mapping (as _process_properties calls it) and the statements that store into it
+    stores: list[tuple[Any, ast.stmt]] = []
+    storage: set[str] = set()
+    for g in funcs:
+        mine = local_names(g.node) if g.qual != pp.qual else set()
+        for n in _own_nodes(g.node):
+            if _is_store(n, mine):
+                tg = n.targets if isinstance(n, ast.Assign) else [n.target]  # type: ignore[attr-defined]
+                storage |= _in_caller(pp, g, {t.value.id for t in tg if isinstance(t, ast.Subscript) and isinstance(t.value, ast.Name)})
+                stores.append((g, n))  # type: ignore[arg-type]
+    rep.require(stores and storage, "the mapping the properties of the composed model are collected in")
+
+    def compares_names(nodes: Iterable[ast.AST], depth: int = 1) -> bool:
+        """a comparison of python names is made by these nodes, or by a function of the region they call"""
+        for n in nodes:
+            for x in ast.walk(n):
+                if isinstance(x, ast.Compare) and any(isinstance(a, ast.Attribute) and a.attr == "python_name" for a in ast.walk(x)):
+                    return True
+                if isinstance(x, ast.Call) and depth > 0:
+                    h = by_name.get(call_name(x).rsplit(".", 1)[-1])
+                    if h is not None and compares_names([h.node], depth - 1):
+                        return True
+        return False
+
+    def checks(g: Any, depth: int = 1) -> list[ast.stmt]:
+        """the statements of g that compare python names across everything collected so far: a loop over the mapping (all of it) whose body
+        compares, a statement with such a comprehension, or the call of a function of the region that has one"""
+        out: list[ast.stmt] = []
+        lc = Locals(g.node)
+        mapping = _seen_as(pp, g, storage)
+        for n in _own_nodes(g.node):
+            if isinstance(n, (ast.For, ast.AsyncFor)) and _unfiltered_sources(n.iter, lc) & mapping and compares_names(n.body):
+                out.append(n)
+            elif isinstance(n, (ast.ListComp, ast.SetComp, ast.GeneratorExp, ast.DictComp)) and \
+                    any(_unfiltered_sources(c.iter, lc) & mapping for c in n.generators):
+                st = stmt_of(g.node, n)
+                if st is not None and compares_names([n] + [x for x in walk_own(st) if isinstance(x, ast.Compare) and any(y is n for y in ast.walk(x))]):
+                    out.append(st)
+            elif isinstance(n, ast.Call) and depth > 0:
+                h = by_name.get(call_name(n).rsplit(".", 1)[-1])
+                if h is not None and h.qual != g.qual and checks(h, depth - 1):
+                    st = stmt_of(g.node, n)
+                    if st is not None:
+                        out.append(st)
+        return out
+
+    def unchecked(g: Any, at: ast.stmt, depth: int = 1) -> list[tuple[Any, ast.stmt]]:
+        """where the statement (a store, or the call of the function that stores) is reached without a comparison before it"""
+        cs = checks(g)
+        if any(c is not at and cfg_of(g, cfgs).is_dominated_by(at, lambda n, c=c: n is c) for c in cs):
+            return []
+        calls = [(h, stmt_of(h.node, c)) for h in funcs if h.qual != g.qual for c in _own_nodes(h.node)
+                 if isinstance(c, ast.Call) and call_name(c).rsplit(".", 1)[-1] == g.name]
+        if depth == 0 or not calls or g.qual == pp.qual:
+            return [(g, at)]
+        return [bad for h, st in calls if st is not None for bad in unchecked(h, st, depth - 1)] if not cs else [(g, at)]
+
+    n_checked = 0
+    for g, st in stores:
+        tg = st.targets if isinstance(st, ast.Assign) else [st.target]  # type: ignore[attr-defined]
+        key = next((t.slice for t in tg if isinstance(t, ast.Subscript)), None)
+        bad = unchecked(g, st)
+        n_checked += 0 if bad else 1
+        rep.check(not bad, "R15.9", f"{g.name}::python-name-compared-before-store[{anon(key, local_names(g.node)) if key is not None else ''}]",
+                  "a property is stored in the composed model on a path on which it has not been compared by python name with the properties "
+                  "collected so far: a redefined (merged) or inherited property may take the python name of another member's property, which "
+                  "then is neither accepted nor emitted by the composed class", where(*bad[0]) if bad else where(g, st),
+                  lhs=[f"{h.name}: {norm(x)[:60]}" for h, x in bad], rhs="dominated by a comparison with every collected property's python_name")
+    rep.floor("stores_after_python_name_comparison", n_checked, 1)
+
+
+# ======================================================================================================================
 # R15.8: the schema layer does not take a composition apart
 # ======================================================================================================================
 
@@ -1727,6 +2117,44 @@ def _parents_first(rep: Report, ctx: Any, cfgs: dict[str, CFG]) -> None:
               "a model whose parent is not processed yet is not re-queued (or its error of the last round is not reported)", where(pm, pl),
               lhs={"requeue": [norm(c) for c in requeues], "recorded_in": sorted(recorded), "reported": sorted(feeds), "every_model_accounted_for": every},
               rhs="<next round>.append(<model>) and (<model>, <error>) recorded in a list that reaches _process_model_errors, on every path")
+
+    # an error recorded for a model that is also queued for the next round is provisional: the next round decides anew.  The list it is
+    # recorded in starts every round empty (else a model that succeeds when it is retried is still reported - and removed), and is not
+    # emptied between the last round and the report
+    inside = {id(x) for x in ast.walk(pl)}
+    round_ends = [n for n in cfg.nodes if isinstance(n, ast.stmt) and id(n) not in inside and
+                  any(p_ is pl or id(p_) in inside for p_ in cfg.pred.get(n, ()))]
+    sink_st = [stmt_of(pm.node, c) for c in sink]
+    provisional = sorted({r for r, c in records if any(
+        q is not None and st is not None and (q in cfg.reachable_from(st, avoid=lambda n: n is pl) or st in cfg.reachable_from(q, avoid=lambda n: n is pl))
+        for st in [stmt_of(pm.node, c)] for q in req_st)})
+    stale, lost = [], []
+    for lst in provisional:
+        def resets(n: object, lst: str = lst) -> bool:
+            if isinstance(n, (ast.Assign, ast.AnnAssign)) and n.value is not None:
+                tg = n.targets if isinstance(n, ast.Assign) else [n.target]
+                if any(norm(t) == lst for t in tg) and lst not in names_in(n.value):
+                    return True  # bound to something that does not contain what it held
+                return any(isinstance(t, ast.Subscript) and norm(t.value) == lst and isinstance(t.slice, ast.Slice) and
+                           t.slice.lower is None and t.slice.upper is None for t in tg) and isinstance(n.value, (ast.List, ast.Tuple)) and not n.value.elts
+            if isinstance(n, ast.Expr) and isinstance(n.value, ast.Call) and isinstance(n.value.func, ast.Attribute):
+                return n.value.func.attr == "clear" and norm(n.value.func.value) == lst
+            if isinstance(n, ast.Delete):
+                return any(isinstance(t, ast.Subscript) and norm(t.value) == lst for t in n.targets)
+            return False
+
+        for e_ in round_ends:
+            if not resets(e_) and pl in cfg.reachable_from(e_) and not cfg.every_path_passes(e_, pl, resets):
+                stale.append(lst)
+            after_last = cfg.reachable_from(e_, avoid=lambda n: n is pl)
+            if any(resets(n) and any(s_ in cfg.reachable_from(n, avoid=lambda m: m is pl) for s_ in sink_st) for n in after_last):
+                lost.append(lst)
+    rep.check(not stale and not lost, "R15.4", "_process_models::retried-model-error-is-provisional",
+              "the error of a model that is queued for another round is kept beyond that round (the list it is recorded in is not emptied on "
+              "every path from the end of one round to the start of the next): a child declared before its parent is processed when it is "
+              "retried and is reported and removed all the same - or the list is emptied before the last round's errors are reported",
+              where(pm, pl), lhs={"recorded_with_requeue": provisional, "kept_across_rounds": sorted(set(stale)), "emptied_before_report": sorted(set(lost))},
+              rhs="emptied between two rounds on every path, never between the last round and _process_model_errors")
 
     # the self-reference decision: the test (here or in a helper it calls) that looks at the end of the reference
     def ends_calls(e: ast.AST) -> list[tuple[Any, ast.Call]]:
